@@ -35,6 +35,8 @@ pub struct Coll<'ast> {
     pub locals: Vec<&'ast Local>,
     pub loops: Vec<&'ast Expr>,
     pub stmts: Vec<&'ast Stmt>,
+    pub fields: Vec<&'ast FieldValue>,
+    pub ifs: Vec<&'ast ExprIf>,
     pub depth_fn: usize,
 }
 
@@ -66,7 +68,14 @@ impl<'ast> Visit<'ast> for Coll<'ast> {
         if matches!(e, Expr::While(_) | Expr::Loop(_) | Expr::ForLoop(_)) {
             self.loops.push(e);
         }
+        if let Expr::If(i) = e {
+            self.ifs.push(i);
+        }
         visit::visit_expr(self, e);
+    }
+    fn visit_field_value(&mut self, f: &'ast FieldValue) {
+        self.fields.push(f);
+        visit::visit_field_value(self, f);
     }
 }
 
@@ -260,6 +269,28 @@ pub fn resolve<'a>(sf: &'a SourceFile, path: &str) -> std::result::Result<Cur<'a
                 .ok_or_else(|| lost("no such let"))?;
             let init = l.init.as_ref().ok_or_else(|| lost("let without initialiser"))?;
             cur = Cur::Expr(&init.expr);
+        } else if let Some(n) = seg.strip_prefix("field ") {
+            let (name, k) = split_ord(n);
+            let coll = collect(&cur);
+            let f = coll
+                .fields
+                .iter()
+                .filter(|f| matches!(&f.member, Member::Named(id) if *id == name))
+                .nth(k - 1)
+                .ok_or_else(|| lost("no such struct-literal field"))?;
+            cur = Cur::Expr(&f.expr);
+        } else if let Some(n) = seg.strip_prefix("ifcond ") {
+            // condition of the k-th `if` whose normalized condition starts with the given text
+            let (pfx, k) = split_ord(n);
+            let want = norm(&pfx);
+            let coll = collect(&cur);
+            let i = coll
+                .ifs
+                .iter()
+                .filter(|i| norm(sf.slice(sf.range(i.cond.span()))).starts_with(&want))
+                .nth(k - 1)
+                .ok_or_else(|| lost("no such if"))?;
+            cur = Cur::Expr(&i.cond);
         } else if let Some(n) = seg.strip_prefix("arg#") {
             let k: usize = n.trim().parse().map_err(|_| lost("bad arg ordinal"))?;
             match &cur {
@@ -310,6 +341,19 @@ fn attach_spec(
         .insert(at, format!("\n    {}\n    ", spec.trim()), "contract:spec");
 }
 
+/// the `loop` expression in tail position of an expression, if any
+fn tail_loop_of(sf: &SourceFile, e: &Expr) -> Option<(usize, usize)> {
+    match e {
+        Expr::Loop(l) => Some(sf.range(l.span())),
+        Expr::Block(b) => match b.block.stmts.last() {
+            Some(Stmt::Expr(x, None)) => tail_loop_of(sf, x),
+            _ => None,
+        },
+        Expr::Paren(p) => tail_loop_of(sf, &p.expr),
+        _ => None,
+    }
+}
+
 fn canary(sf: &SourceFile, rw: &mut Rewriter, block: &Block) {
     let p = sf.off(block.brace_token.span.open().end());
     rw.edits.insert(p, " assert(false); /* vx canary */ ".to_string(), "canary");
@@ -337,6 +381,44 @@ pub fn extract_item(sf: &SourceFile, it: &Value, cfg: &Config) -> std::result::R
                 },
             );
         }
+    }
+
+    if it["skel"].is_object() {
+        // ---------------- R-skel: skeleton instead of verbatim text
+        let mut cfg = it["skel"].clone();
+        if want_canary {
+            cfg["canary"] = json!(true);
+        }
+        let name = cfg["name"].as_str().unwrap_or(id).to_string();
+        let (body, span) = match &cur {
+            Cur::Closure(c) => (crate::skel::SkBody::Expr(&c.body), c.span()),
+            Cur::ItemFn(f) => (crate::skel::SkBody::Block(&f.block), f.span()),
+            Cur::ImplFn(f) => (crate::skel::SkBody::Block(&f.block), f.span()),
+            Cur::Arm(a) => (crate::skel::SkBody::Expr(&a.body), a.span()),
+            Cur::Expr(e) => (crate::skel::SkBody::Expr(e), e.span()),
+            _ => return Err(("unsupported", format!("`{}` does not select a body for a skeleton", path))),
+        };
+        let (text, events, unsupported) = crate::skel::build(sf, &cfg, &name, body);
+        if !unsupported.is_empty() {
+            return Err(("unsupported", unsupported.join("; ")));
+        }
+        let min_events = cfg["min_events"].as_u64().unwrap_or(1) as usize;
+        if events.len() < min_events {
+            return Err((
+                "lost-anchor",
+                format!("{}: skeleton of `{}` keeps {} primitive occurrence(s), expected at least {}", sf.path, path, events.len(), min_events),
+            ));
+        }
+        let r = sf.range(span);
+        let nlines = text.matches('\n').count() + 1;
+        return Ok(json!({
+            "id": id, "file": sf.path, "select": path,
+            "src_lines": [sf.line_of(r.0), sf.line_of(r.1.saturating_sub(1))],
+            "src_text_sha": format!("{:x}", fxhash(sf.slice(r))),
+            "text": text, "line_map": vec![0usize; nlines], "fns": [name],
+            "rewrites": [{"rule": "R-skel", "line": sf.line_of(r.0), "from": format!("{} primitive occurrence(s) kept, all other computation dropped", events.len())}],
+            "events": events,
+        }));
     }
 
     let range: (usize, usize);
@@ -451,6 +533,7 @@ pub fn extract_item(sf: &SourceFile, it: &Value, cfg: &Config) -> std::result::R
         Cur::Arm(a) => {
             range = sf.range(a.body.span());
             wrap_needed = true;
+            rw.tail_loop = tail_loop_of(sf, &a.body);
             rw.visit_expr(&a.body);
         }
         Cur::Closure(c) => {
@@ -606,7 +689,15 @@ pub fn extract_item(sf: &SourceFile, it: &Value, cfg: &Config) -> std::result::R
             }
         }
         pre_lines = head.matches('\n').count();
-        text = format!("{}{}\n}}\n", head, text);
+        let pre = it["wrap_prefix"].as_str().map(|s| format!("{}\n", s)).unwrap_or_default();
+        let suf = it["wrap_suffix"].as_str().map(|s| format!("{}\n", s)).unwrap_or_default();
+        pre_lines += pre.matches('\n').count();
+        text = format!("{}{}{}\n}}\n{}", pre, head, text, suf);
+    }
+    if let Some(pp) = it["prepend"].as_str() {
+        // e.g. re-attach the subset of a dropped #[derive(..)] that Verus understands
+        text = format!("{}\n{}", pp, text);
+        pre_lines += pp.matches('\n').count() + 1;
     }
     let mut lm: Vec<usize> = vec![0; pre_lines];
     lm.extend(lmap);
